@@ -318,8 +318,37 @@ func (x *Gen) mutate(s string) string {
 	return s + x.pick([]string{"0", ".0", "0fp<8.4>1", "x", " ", "0u1"})
 }
 
+// MaxStatedSize is the largest width a generated literal states between < and >
+// (digit strings too long for an int are rejected before anything is allocated
+// and stay). The importers of 0b<n>… and 0x<n>… allocate and loop over n-proportional
+// memory: `0x<99999999999>1` is resource exhaustion, not a question of meaning.
+const MaxStatedSize = 4096
+
+// ClampSizes rewrites every <digits> group whose value exceeds MaxStatedSize
+// (and fits an int64) to <300>.
+func ClampSizes(s string) string {
+	for i := 0; i < len(s); i++ {
+		if s[i] != '<' {
+			continue
+		}
+		j := i + 1
+		for j < len(s) && isDigit(s[j]) {
+			j++
+		}
+		if j == i+1 || j >= len(s) || s[j] != '>' {
+			continue
+		}
+		if v, err := strconv.ParseInt(s[i+1:j], 10, 64); err == nil && v > MaxStatedSize {
+			s = s[:i+1] + "300" + s[j:]
+		}
+	}
+	return s
+}
+
 // Literal generates one string to be offered to the importer.
-func (x *Gen) Literal() string {
+func (x *Gen) Literal() string { return ClampSizes(x.literal()) }
+
+func (x *Gen) literal() string {
 	k := x.G.Draw(10)
 	switch {
 	case k <= 5:
